@@ -207,8 +207,11 @@ func monC05() mc.Monitor {
 					continue
 				}
 				seenApp[c.App] = true
+				// "admits an application": its first allocation while it is not Running yet. An application that is Running,
+				// lost its allocations and keeps an outstanding ask was admitted before (possibly before a reload brought the
+				// limit): allocating for it again is not an admission.
 				first := true
-				if pa := pre.Apps[c.App]; pa != nil && len(pa.Allocs) > 0 {
+				if pa := pre.Apps[c.App]; pa != nil && (len(pa.Allocs) > 0 || pa.State == "Running") {
 					first = false
 				}
 				g := groupOf(c.App, a.User)
@@ -416,16 +419,16 @@ func init() {
 		n := fmt.Sprintf("ugm-sched-%d", i)
 		mc.Register(&mc.ScenarioDef{Scn: scnUGM(n, []string{c05Layouts[i]}, sched, []world.Op{op("NODE_ADD", "n1"), op("APP_ADD", "app1"), op("ASK", "a1")}), Monitors: []mc.Monitor{monC05()}})
 		quick = append(quick, Run{Scenario: n, Depth: 6, MapModes: []int{1}})
-		thorough = append(thorough, Run{Scenario: n, Depth: 8, MapModes: []int{1, 2}})
+		thorough = append(thorough, Run{Scenario: n, Depth: 9, MapModes: []int{1, 2}})
 	}
 	mc.Register(&mc.ScenarioDef{Scn: scnUGMReserve("ugm-reserve"), Monitors: []mc.Monitor{monC05()}})
 	quick = append(quick, Run{Scenario: "ugm-reserve", Depth: 5, MapModes: []int{1}})
-	thorough = append(thorough, Run{Scenario: "ugm-reserve", Depth: 7, MapModes: []int{1, 2}})
+	thorough = append(thorough, Run{Scenario: "ugm-reserve", Depth: 8, MapModes: []int{1, 2}})
 	reload := []string{"SCHEDULE", "ASK", "RELEASE", "APP_ADD", "CONFIG"}
 	mc.Register(&mc.ScenarioDef{Scn: scnUGM("ugm-reload", c05Layouts, reload, []world.Op{op("NODE_ADD", "n1"), op("APP_ADD", "app1"), op("ASK", "a1"), op("SCHEDULE")}), Monitors: []mc.Monitor{monC05()}})
 	mc.Register(&mc.ScenarioDef{Scn: scnUGM("ugm-reload-2apps", c05Layouts, reload, []world.Op{op("NODE_ADD", "n1"), op("APP_ADD", "app1"), op("ASK", "a1"), op("SCHEDULE"), op("APP_ADD", "app3"), op("ASK", "c1"), op("SCHEDULE")}), Monitors: []mc.Monitor{monC05()}})
 	quick = append(quick, Run{Scenario: "ugm-reload", Depth: 4, MapModes: []int{1}}, Run{Scenario: "ugm-reload-2apps", Depth: 3, MapModes: []int{1}})
-	thorough = append(thorough, Run{Scenario: "ugm-reload", Depth: 6, MapModes: []int{1, 2}}, Run{Scenario: "ugm-reload-2apps", Depth: 5, MapModes: []int{1}})
+	thorough = append(thorough, Run{Scenario: "ugm-reload", Depth: 7, MapModes: []int{1, 2}}, Run{Scenario: "ugm-reload-2apps", Depth: 5, MapModes: []int{1}})
 	registerCheck(&CheckDef{Prop: "C05", Level: "model_checking", Technique: tE1, Quick: quick, Thorough: thorough,
 		QuickBudget: 150 * time.Second, ThoroughBudget: 12 * time.Minute,
 		Assumptions: []string{"limit reference = named entry, else wildcard entry, else none, per queue path of the latest accepted document", "the group of an application is the one the user tracker DAO reports for it"}})
